@@ -248,8 +248,15 @@ class CallGraph:
                         out.append(m)
         # func(*args) where func = <x>.get_function(name)
         if isinstance(f, ast.Name) and f.id in self._facts(fi)[1]:
+            ctx_classes = None
+            if fi.cls is not None:
+                init = self.proj.find_method(fi.cls, '__init__')
+                if init is not None:
+                    lt = self.local_types(init)
+                    if lt.get('ctx'):
+                        ctx_classes = lt['ctx']
             for c in self.proj.classes.values():
-                if 'get_function' in c.methods:
+                if 'get_function' in c.methods and (ctx_classes is None or c.qualname in ctx_classes):
                     for m in c.methods.values():
                         if m.name.startswith('_fn_'):
                             out.append(m)
